@@ -2510,6 +2510,9 @@ EbErrorType decode_multiple_obu(EbDecHandle *dec_handle_ptr, uint8_t **data, siz
             if (status != EB_ErrorNone)
                 return status;
 
+            // the length field itself must fit in what is left
+            if (length_size > data_size)
+                return EB_Corrupt_Frame;
             *data += length_size;
             data_size -= length_size;
             length_size = 0;
@@ -2519,8 +2522,15 @@ EbErrorType decode_multiple_obu(EbDecHandle *dec_handle_ptr, uint8_t **data, siz
         if (status != EB_ErrorNone)
             return status;
 
-        if (is_annexb)
+        // header (+ size field) longer than the remaining data, or an obu_length shorter than
+        // its own header: the subtractions below would wrap
+        if (obu_header.size + length_size > data_size)
+            return EB_Corrupt_Frame;
+        if (is_annexb) {
+            if (obu_header.payload_size < obu_header.size)
+                return EB_Corrupt_Frame;
             obu_header.payload_size -= obu_header.size;
+        }
 
         payload_size = obu_header.payload_size;
 
